@@ -111,7 +111,7 @@ func ProfileOpts(p string) RandomOpts {
 	case "pause": // C09
 		return RandomOpts{EnvProb: 0.4, EnvBudget: 8, AllowPause: true, AllowReown: true, Settle: true}
 	case "handover": // C02: revisions paused / archived / deleted mid-handover, no third-party ownership edits
-		return RandomOpts{EnvProb: 0.3, EnvBudget: 5, AllowPause: true, AllowArchive: true, AllowCRDelete: true, Settle: true}
+		return RandomOpts{EnvProb: 0.3, EnvBudget: 5, AllowPause: true, AllowArchive: true, AllowCRDelete: true, AllowOrphan: true, Settle: true}
 	case "race": // C05: third party acts between PKO's read and its delete
 		return RandomOpts{EnvProb: 0.25, EnvBudget: 8, AllowReown: true, AllowCRDelete: true, AllowArchive: true, AllowOrphan: true, Race: true, Settle: true}
 	case "deploy": // C07, C08: template edits, lagging cache for creates, faults and crashes around the create
